@@ -1,6 +1,6 @@
 (* C01 — Every swarm delivers exactly what was told, to whom it was told. *)
 From P2PV Require Import Lib.Base Lib.Varint Model.Mux Model.Frag Model.Layers
-  Proofs.MuxP Proofs.FragP Proofs.LayersP.
+  Proofs.MuxP Proofs.FragP Proofs.LayersP Proofs.MbappP Proofs.LayersMbP.
 Open Scope N_scope.
 
 (* Composition: for EVERY stack of sound layers (any depth, any nesting), any
@@ -21,6 +21,7 @@ Proof. exact stack_faithful. Qed.
 Definition C01_mux_layer := mux_slayer.
 Definition C01_frag_layer := frag_slayer.
 Definition C01_id_layer := id_slayer.
+Definition C01_mbapp_layer := mb_slayer.
 
 (* soundness of one multiplexer channel stated directly *)
 Theorem C01_mux_sound : forall k c (a : told), valid_chan k c = true -> forall inp,
@@ -55,3 +56,4 @@ Print Assumptions C01_mux_sound.
 Print Assumptions C01_frag_sound.
 Print Assumptions frag_slayer.
 Print Assumptions mux_slayer.
+Print Assumptions mb_slayer.
